@@ -198,9 +198,14 @@ func main() {
 			os.Exit(2)
 		}
 		vs, _ := vocabOf(L.Pkgs)
+		var flat []string
 		for _, v := range vs {
 			fmt.Println(v.line())
+			if v.Flat != "" {
+				flat = append(flat, v.line()+"\t"+v.Flat)
+			}
 		}
+		os.WriteFile(filepath.Join(*verif, "refs", "vocab_flat.txt"), []byte(strings.Join(flat, "\n")+"\n"), 0o644)
 		return
 	}
 	if *listFn {
@@ -282,6 +287,7 @@ func main() {
 			}
 			os.Exit(2)
 		}
+		curLoaded = L
 		c := &Ctx{Repo: *repo, Tier: *tier, Cfg: L.Cfg, L: L, results: map[string][]Obl{}}
 		if len(L.Renames) > 0 {
 			allRenames = L.Renames
